@@ -38,9 +38,12 @@ import (
 	"testing"
 	"time"
 
+	eth2p0 "github.com/attestantio/go-eth2-client/spec/phase0"
+
 	"github.com/obolnetwork/charon/app/k1util"
 	"github.com/obolnetwork/charon/cluster"
 	"github.com/obolnetwork/charon/cmd"
+	"github.com/obolnetwork/charon/eth2util/deposit"
 	"github.com/obolnetwork/charon/eth2util/keystore"
 	"github.com/obolnetwork/charon/tbls"
 
@@ -833,6 +836,76 @@ func (r *run) doByz(st drv.Step) {
 	}
 }
 
+// the addresses NewMessage may be given
+var addrTable = map[string]string{"A": "0x" + addrA, "B": "0x" + addrB, "short": "0x" + addrA[2:], "no0x": addrA, "nothex": "0x" + addrA[:38] + "zz",
+	"creds32": "0x01" + pad11 + addrA, "empty": ""}
+
+func gweis(v any) []eth2p0.Gwei {
+	xs, _ := v.([]any)
+	out := []eth2p0.Gwei{}
+	for _, x := range xs {
+		f, _ := x.(float64)
+		out = append(out, eth2p0.Gwei(uint64(f)))
+	}
+
+	return out
+}
+
+// doFn calls one of the pure functions of eth2util/deposit (or reads a written directory back) and records the result.
+func (r *run) doFn(st drv.Step) {
+	ev := drv.Step{"ev": "Fn", "f": drv.Str(st["f"])}
+	comp, _ := st["comp"].(bool)
+	switch drv.Str(st["f"]) {
+	case "newmsg":
+		v := drv.Num(st["v"])
+		g, _ := st["gwei"].(float64)
+		var pk eth2p0.BLSPubKey
+		copy(pk[:], unhex(r.valHex(v)))
+		msg, err := deposit.NewMessage(pk, addrTable[drv.Str(st["addr"])], eth2p0.Gwei(uint64(g)), comp)
+		ev["v"], ev["addr"], ev["gwei"], ev["comp"], ev["ok"] = v, drv.Str(st["addr"]), uint64(g), comp, err == nil
+		ev["creds"], ev["outgwei"], ev["outv"] = absW(msg.WithdrawalCredentials), uint64(msg.Amount), r.valOf("0x"+hex.EncodeToString(msg.PublicKey[:]))
+	case "verify":
+		a := gweis(st["amts"])
+		if n, ok := st["nil"].(bool); ok && n {
+			a = nil
+		}
+		ev["amts"], ev["comp"], ev["ok"] = a, comp, deposit.VerifyDepositAmounts(a, comp) == nil
+	case "dedup":
+		a := gweis(st["amts"])
+		in := append([]eth2p0.Gwei{}, a...)
+		out := deposit.DedupAmounts(a)
+		if out == nil {
+			out = []eth2p0.Gwei{}
+		}
+		same := len(in) == len(a)
+		for i := range in {
+			same = same && in[i] == a[i]
+		}
+		ev["amts"], ev["out"], ev["inputKept"] = in, out, same
+	case "max":
+		ev["comp"], ev["out"] = comp, uint64(deposit.MaxDepositAmount(comp))
+	case "readback":
+		op, d := drv.Num(st["op"]), drv.Num(st["dir"])
+		sets, err := deposit.ReadDepositDataFiles(r.outDir(op, d))
+		files := []drv.Step{}
+		for _, set := range sets {
+			f := drv.Step{"a": -1, "n": len(set), "entries": []drv.Step{}}
+			es := []drv.Step{}
+			for _, dd := range set {
+				f["a"] = absAmt(uint64(dd.Amount))
+				es = append(es, drv.Step{"v": r.valOf("0x" + hex.EncodeToString(dd.PublicKey[:])), "w": absW(dd.WithdrawalCredentials), "a": absAmt(uint64(dd.Amount)),
+					"by": r.fullBy(r.sigRoot(dd.PublicKey[:], dd.WithdrawalCredentials, uint64(dd.Amount)), dd.Signature[:])})
+			}
+			f["entries"] = es
+			files = append(files, f)
+		}
+		ev["op"], ev["dir"], ev["ok"], ev["files"] = op, d, err == nil, files
+	default:
+		return
+	}
+	r.log(ev)
+}
+
 func (w *world) exec(sid int, sched []drv.Step) []drv.Step {
 	r := &run{w: w, sid: sid, sigs: map[string]string{}, toks: map[string]drv.Step{}, sigIDs: map[string]int{}}
 	for _, st := range sched {
@@ -850,6 +923,8 @@ func (w *world) exec(sid int, sched []drv.Step) []drv.Step {
 			r.doFetch(st)
 		case "Byz":
 			r.doByz(st)
+		case "Fn":
+			r.doFn(st)
 		}
 	}
 	r.log(drv.Step{"ev": "End"})
